@@ -1,4 +1,5 @@
 CONSTANTS
+  Dev = {}
   Mut = {}
   Names = {"a.example"}
   Types = {"A"}
